@@ -45,7 +45,8 @@ def extra(local, sc, cfg, sr, hev, wire, out):
 
 def run(tier, seed, model_ok=True):
     res = C.Result()
-    res.rule = ("seeded message DAGs (main-context asyncs/bcasts/mcasts, handler scripts that send again, payloads 0..40 kB incl. > capacity) x layouts x 3 routings x "
+    res.rule = ("[a quarter of the generated scenarios also run barriers of a SECOND ygm::comm living in the same process between the epochs; its events are removed from the judged history] " +
+                "seeded message DAGs (main-context asyncs/bcasts/mcasts, handler scripts that send again, payloads 0..40 kB incl. > capacity) x layouts x 3 routings x "
                 "capacity {0,1KB,16MB} x irecvs x isends_wait x issend x policy; non-trivial = handlers ran; distinct = (config, scenario shape)")
     res.assumptions = ["schedules sampled by seeded policies", "finite generated message DAGs"]
     binary, err = C.build_harness("traffic")
